@@ -17,3 +17,11 @@ for d in sys.argv[1:]:
     adts |= {k for k in p.adts if k.split('::')[0] in mirinline.WORKSPACE}
 json.dump(sorted(adts), open(os.path.join(os.path.dirname(__file__), '..', 'sa', 'known_adts.json'), 'w'), indent=0)
 print(len(out), 'functions', len(adts), 'ADTs')
+# wire layout table of the pinned tree (C11.R9 / C06.R7)
+from sa.paths import Analyses
+from sa.layout import wire_fingerprint
+p = Program(sys.argv[1])
+fp, lay = wire_fingerprint(p, Analyses(p))
+json.dump({'version': str(p.const_val('maybenot::constants::VERSION')), 'fingerprint': fp, 'layout': lay},
+          open(os.path.join(os.path.dirname(__file__), '..', 'sa', 'known_layout.json'), 'w'), indent=1)
+print('layout fingerprint', fp[:16], len(lay), 'types')
